@@ -28,6 +28,10 @@
 //! mirrors for runtime / thread-local test sinks; judged by "some sequential order of the overlapping ops explains
 //! every result" and by the Lean micro-step model (`take` .. `dropPair`).
 //!
+//! Contention case line: `hammer <threads> <iterations> <attached 0|1> <seed>` (see `HammerCase`): readers inside
+//! runtime contexts hammer the global while the coordinator installs / probes / drops runtime test-sink guards;
+//! after every guard drop the next destination must take over and a re-install must succeed.
+//!
 //! Oracle (independent of Lean, written from the property statement): a tracker of what is installed
 //! where (attached sink, live handle, per-thread and per-runtime test sinks, held sink clones) predicts for
 //! every op the single destination by the stated precedence (thread-local, else current runtime's, else
@@ -1177,6 +1181,7 @@ enum Conc {
     Race(RaceCase),
     Gate(GateCase),
     Ad(AdCase),
+    Hammer(HammerCase),
 }
 
 impl Conc {
@@ -1185,10 +1190,11 @@ impl Conc {
             Conc::Race(r) => r.encode(),
             Conc::Gate(g) => g.encode(),
             Conc::Ad(a) => a.encode(),
+            Conc::Hammer(h) => h.encode(),
         }
     }
     fn decode(s: &str) -> Option<Conc> {
-        RaceCase::decode(s).map(Conc::Race).or_else(|| GateCase::decode(s).map(Conc::Gate)).or_else(|| AdCase::decode(s).map(Conc::Ad))
+        RaceCase::decode(s).map(Conc::Race).or_else(|| GateCase::decode(s).map(Conc::Gate)).or_else(|| AdCase::decode(s).map(Conc::Ad)).or_else(|| HammerCase::decode(s).map(Conc::Hammer))
     }
 }
 
@@ -1551,24 +1557,33 @@ struct AdCase {
     kind: char,
     wait_ms: u64,
     block: usize,
+    /// number of plain ops executed sequentially before the gated install (header token `pre=<n>`)
+    pre: usize,
     case: Case,
 }
 
 impl AdCase {
     fn encode(&self) -> String {
-        format!("adrace {} {} {} | {}", self.kind, self.wait_ms, self.block, self.case.encode())
+        let pre = if self.pre > 0 { format!(" pre={}", self.pre) } else { String::new() };
+        format!("adrace {} {} {}{} | {}", self.kind, self.wait_ms, self.block, pre, self.case.encode())
     }
     fn decode(s: &str) -> Option<AdCase> {
         let (head, rest) = s.split_once(" | ")?;
         let v: Vec<&str> = head.split_whitespace().collect();
-        if v.len() != 4 || v[0] != "adrace" {
+        if !(v.len() == 4 || v.len() == 5) || v[0] != "adrace" {
             return None;
         }
         let kind = v[1].chars().next()?;
-        let c = AdCase { kind, wait_ms: v[2].parse().ok()?, block: v[3].parse().ok()?, case: Case::decode(rest)? };
-        let ops = &c.case.ops;
-        let ok = matches!(kind, 'a' | 'r' | 't')
-            && (c.block == 3 || c.block == 4)
+        let pre: usize = match v.get(4) {
+            Some(p) => p.strip_prefix("pre=")?.parse().ok()?,
+            None => 0,
+        };
+        let c = AdCase { kind, wait_ms: v[2].parse().ok()?, block: v[3].parse().ok()?, pre, case: Case::decode(rest)? };
+        if c.case.ops.len() < pre + c.block || !(c.block == 3 || c.block == 4) {
+            return None;
+        }
+        let ops = &c.case.ops[pre..];
+        let ok = matches!(kind, 'a' | 'r' | 't' | 'd')
             && ops.len() >= c.block
             && c.wait_ms <= 2000
             && c.case.init.is_none()
@@ -1576,6 +1591,9 @@ impl AdCase {
                 ('a', Op::Attach(_), Op::DropAttach(_), Op::Attach(_)) => true,
                 ('r', Op::SetRT(k, _), Op::DropRT(k1, _), Op::SetRT(..) | Op::SetRTCur(_)) => k == k1,
                 ('t', Op::SetTL(_), Op::DropTL(_), Op::SetTL(_)) => ops[0].t == ops[1].t,
+                // `d`: while A's guard drop is parked inside the registry's critical section, B drops (or
+                // installs) the guard of ANOTHER runtime
+                ('d', Op::SetRT(k, _), Op::DropRT(k1, _), Op::DropRT(k2, _) | Op::SetRT(k2, _)) => k == k1 && k2 != k,
                 _ => false,
             }
             // A parks its thread, B may block: the three concurrent ops need three different threads
@@ -1621,10 +1639,17 @@ impl Shard {
         let g = self.acquire(None)?;
         self.log.lock().unwrap().clear();
         let shared = Arc::new(Mutex::new(Shared::default()));
-        let ops = &ad.case.ops;
         let gate = Arc::new(Gate::default());
         let mut failure: Option<(String, String)> = None;
         let mut tracker = Tracker::default();
+        let mut results: Vec<String> = vec![];
+        let mut seen0 = 0usize;
+        for (i, it) in ad.case.ops[..ad.pre].iter().enumerate() {
+            let (res, problem, raw) = self.exec_item(g, &shared, it, &mut seen0);
+            Self::judge(&mut tracker, &mut failure, i, it, &res, problem, &raw);
+            results.push(res);
+        }
+        let ops = &ad.case.ops[ad.pre..];
 
         // ---- ops[0]: install the object with the gated drop
         let setup = {
@@ -1643,7 +1668,7 @@ impl Shard {
                                 sh.lock().unwrap().handle = Some((h, label));
                             })
                         }
-                        ('r', Op::SetRT(k, s)) => {
+                        ('r' | 'd', Op::SetRT(k, s)) => {
                             let sink = BoxEntrySink::new(GatedDropSink { inner: mk(*s), gate });
                             catch(|| (vt.set_rt)(&hs[*k], sink)).map(|guard| {
                                 sh.lock().unwrap().rt_guards[*k] = Some(guard);
@@ -1664,7 +1689,6 @@ impl Shard {
                 }),
             )
         };
-        let mut results: Vec<String> = vec![];
         let (res0, problem0) = canonical(&ops[0], &setup, &[]);
         Self::judge(&mut tracker, &mut failure, 0, &ops[0], &res0, problem0, &setup);
         results.push(res0);
@@ -1695,8 +1719,8 @@ impl Shard {
         let b_waited = b_early.is_none();
         let raw_b = b_early.unwrap_or_else(|| b.recv().expect("crew reply"));
         let raw_c = c.map(|c| c.recv().expect("crew reply"));
-        let recs: Vec<Rec> = self.log.lock().unwrap().clone();
-        let mut seen = recs.len();
+        let recs: Vec<Rec> = self.log.lock().unwrap()[seen0..].to_vec();
+        let mut seen = seen0 + recs.len();
         let mut block_raw = vec![raw_a, raw_b];
         block_raw.extend(raw_c);
         let mut block_res = vec![];
@@ -1763,8 +1787,9 @@ impl Shard {
             ));
         }
         // ---- the same order for the Lean model: kind `a` as a micro-step schedule (take .. dropPair)
-        let mut req = vec!["init=-".to_string(), ops[0].encode()];
-        results.truncate(1);
+        let mut req = vec!["init=-".to_string()];
+        req.extend(ad.case.ops[..=ad.pre].iter().map(|i| i.encode()));
+        results.truncate(ad.pre + 1);
         let mut pending_drop_pair: Option<String> = None;
         for j in &perm {
             let it = &ops[1 + j];
@@ -1810,7 +1835,40 @@ fn gen_adrace(rng: &mut Rng, kind: char, wait_ms: u64) -> AdCase {
         e += 1;
         e
     };
+    let mut pre = 0;
     match kind {
+        'd' => {
+            // runtime 1-k has a plain test sink (and sometimes something is attached); runtime k's sink has the slow drop
+            let k2 = 1 - k;
+            let attached = rng.chance(1, 2);
+            if attached {
+                ops.push(at(tp, None, Op::Attach(9)));
+                pre += 1;
+            }
+            let b_drops = rng.chance(3, 4);
+            if b_drops {
+                ops.push(at(tp, None, Op::SetRT(k2, 2)));
+                pre += 1;
+            }
+            ops.push(at(ta, None, Op::SetRT(k, 1)));
+            ops.push(at(ta, None, Op::DropRT(k, how_a)));
+            ops.push(at(tb, None, if b_drops { Op::DropRT(k2, gen_how(rng, true)) } else { Op::SetRT(k2, 2) }));
+            if third {
+                ops.push(at(tc, Some(if rng.chance(1, 2) { k } else { k2 }), Op::TryAppend(next())));
+            }
+            for (t, r) in [(tp, Some(k2)), (tc, Some(k2)), (tp, Some(k)), (ta, None)] {
+                ops.push(at(t, r, Op::TryAppend(next())));
+            }
+            ops.push(at(tb, Some(k2), Op::IsAttached));
+            ops.push(at(tp, None, Op::SetRT(k2, 3)));
+            ops.push(at(tc, Some(k2), Op::TryAppend(next())));
+            ops.push(at(tc, None, Op::DropRT(k2, How::Normal)));
+            ops.push(at(tp, None, Op::SetRT(k, 4)));
+            ops.push(at(tc, Some(k), Op::TryAppend(next())));
+            ops.push(at(tb, None, Op::DropRT(k, gen_how(rng, true))));
+            ops.push(at(tp, Some(k), Op::TryAppend(next())));
+            ops.push(at(tp, Some(k2), Op::TryAppend(next())));
+        }
         'a' => {
             ops.push(at(ta, None, Op::Attach(1)));
             ops.push(at(ta, None, Op::DropAttach(how_a)));
@@ -1874,7 +1932,222 @@ fn gen_adrace(rng: &mut Rng, kind: char, wait_ms: u64) -> AdCase {
             ops.push(at(tb, None, Op::TryAppend(next())));
         }
     }
-    AdCase { kind, wait_ms, block: if third { 4 } else { 3 }, case: Case { init: None, ops } }
+    AdCase { kind, wait_ms, block: if third { 4 } else { 3 }, pre, case: Case { init: None, ops } }
+}
+
+// ------------------------------------------------------------------------------------------------
+// contention stage (statistical): readers hammer the global from inside runtime contexts while the
+// coordinator installs / probes / drops runtime test-sink guards
+
+/// Case line: `hammer <threads 1..4> <iterations> <attached 0|1> <seed>`.
+/// Crew threads 1..=threads (1, 2 entered into runtime 0 / 1; 3, 4 inside `block_on` of their own runtime; none has a
+/// thread-local sink) loop over `is_attached()` / `try_sink()` / `try_append` on the global until told to stop.
+/// Meanwhile the coordinator repeats: install a test sink for runtime k, append from inside runtime k (must go to
+/// it), drop the guard (plain / `U` / `T`), append from inside runtime k again (must go to the attached sink or be
+/// handed back — never to the dropped test sink), and the next install on the same runtime must succeed.
+/// The coordinator's own ops are sequential and the hammering ops never change the routing state
+/// (`c17_readers_neutral`), so its script has exactly the model's results; every post-condition is deterministic.
+#[derive(Clone, Debug)]
+struct HammerCase {
+    threads: usize,
+    iters: u64,
+    attached: bool,
+    seed: u64,
+}
+
+impl HammerCase {
+    fn encode(&self) -> String {
+        format!("hammer {} {} {} {}", self.threads, self.iters, self.attached as u8, self.seed)
+    }
+    fn decode(s: &str) -> Option<HammerCase> {
+        let v: Vec<&str> = s.split_whitespace().collect();
+        if v.len() != 5 || v[0] != "hammer" {
+            return None;
+        }
+        let c = HammerCase { threads: v[1].parse().ok()?, iters: v[2].parse().ok()?, attached: v[3] == "1", seed: v[4].parse().ok()? };
+        if c.threads == 0 || c.threads > 4 || c.iters > 100_000 {
+            return None;
+        }
+        Some(c)
+    }
+}
+
+struct HammerOutcome {
+    request: String,
+    results: String,
+    failure: Option<(String, String)>,
+    hammer_ops: u64,
+}
+
+impl Shard {
+    fn hammer(&mut self, c: &HammerCase) -> Option<HammerOutcome> {
+        let g = self.acquire(None)?;
+        let vt = &GLOBALS[g];
+        self.log.lock().unwrap().clear();
+        let mut rng = Rng::new(c.seed);
+        let mk = |me: &Shard, s: u64| RecSink { label: Arc::new(AtomicU64::new(s)), log: me.log.clone(), gate: None };
+        let mut failure: Option<(String, String)> = None;
+        let mut script: Vec<Item> = vec![];
+        let mut results: Vec<String> = vec![];
+        let mut handle = None;
+        if c.attached {
+            script.push(Item { t: 0, r: None, op: Op::Attach(9) });
+            match catch(|| (vt.attach)(mk(self, 9))) {
+                Ok(h) => {
+                    handle = Some(h);
+                    results.push("ok".into());
+                }
+                Err(p) => {
+                    results.push("panic".into());
+                    failure = Some(("hammer".into(), format!("attach panicked: {p}")));
+                }
+            }
+        }
+        // ---- start the readers
+        let stop = Arc::new(AtomicBool::new(false));
+        let mut pending = vec![];
+        for t in 1..=c.threads {
+            let stop = stop.clone();
+            let mode = if t >= THREADS - RUNTIMES { Mode::BlockOn } else { Mode::Enter(t % 2) };
+            pending.push(self.crew.submit(
+                t,
+                mode,
+                Box::new(move |_| {
+                    let vt = &GLOBALS[g];
+                    let (mut n, mut ok, mut err, mut panics) = (0u64, 0u64, 0u64, 0u64);
+                    while !stop.load(Ordering::Acquire) {
+                        let r = match n % 8 {
+                            0 => catch(|| match (vt.try_append)(tagged(5_000_000 + n + t as u64)) /* n is a multiple of 8 here, t < 8: unique */ {
+                                Ok(()) => 1,
+                                Err(_) => 0,
+                            }),
+                            1 => catch(|| {
+                                drop((vt.try_sink)());
+                                2
+                            }),
+                            _ => catch(|| {
+                                (vt.is_attached)();
+                                2
+                            }),
+                        };
+                        match r {
+                            Ok(1) => ok += 1,
+                            Ok(0) => err += 1,
+                            Ok(_) => {}
+                            Err(_) => panics += 1,
+                        }
+                        n += 1;
+                    }
+                    format!("{n}:{ok}:{err}:{panics}")
+                }),
+            ));
+        }
+        // ---- the coordinator's loop
+        let hs = self.crew.handles.clone();
+        let mut pos = 0usize;
+        let mut find = |me: &Shard, entry: u64| -> Vec<u64> {
+            let l = me.log.lock().unwrap();
+            let hits: Vec<u64> = l[pos..].iter().filter(|r| r.entry == entry).map(|r| r.sink).collect();
+            pos = l.len();
+            hits
+        };
+        let mut tracker = Tracker::default();
+        if c.attached {
+            tracker.expect(&script[0]);
+        }
+        let mut record = |script: &mut Vec<Item>, results: &mut Vec<String>, failure: &mut Option<(String, String)>, it: Item, res: String, i: u64| {
+            let (want, _) = tracker.expect(&it);
+            if want != res && failure.is_none() {
+                *failure = Some((
+                    "hammer:guard-drop-under-contention".into(),
+                    format!("iteration {i}, `{}`: the property requires `{want}`, the implementation did `{res}` (readers were hammering the global)", it.encode()),
+                ));
+            }
+            script.push(it);
+            results.push(res);
+        };
+        for i in 0..c.iters {
+            if failure.is_some() {
+                break;
+            }
+            let k = ((i / 2) % 2) as usize;
+            let s = 10 + i;
+            // install
+            let guard = catch(|| (vt.set_rt)(&hs[k], BoxEntrySink::new(mk(self, s))));
+            record(&mut script, &mut results, &mut failure, Item { t: 0, r: None, op: Op::SetRT(k, s) }, if guard.is_ok() { "ok".into() } else { "panic".into() }, i);
+            let Ok(guard) = guard else { break };
+            // append from inside runtime k: to the test sink
+            let probe = |e: u64| -> String {
+                let _ctx = hs[k].enter();
+                match catch(|| (vt.try_append)(tagged(e))) {
+                    Ok(Ok(())) => "done".into(),
+                    Ok(Err(back)) if back == tagged(e) => format!("ret{e}"),
+                    Ok(Err(_)) => "returned-changed".into(),
+                    Err(_) => "panic".into(),
+                }
+            };
+            let canon = |raw: String, hits: Vec<u64>| -> String {
+                if raw == "done" {
+                    if hits.len() == 1 { format!("d{}", hits[0]) } else { format!("d?{}", hits.len()) }
+                } else if !hits.is_empty() {
+                    format!("{raw}+delivered")
+                } else {
+                    raw
+                }
+            };
+            let e1 = 100_000 + 2 * i;
+            let raw = probe(e1);
+            let res = canon(raw, find(self, e1));
+            record(&mut script, &mut results, &mut failure, Item { t: 0, r: Some(k), op: Op::TryAppend(e1) }, res, i);
+            // drop the guard while the readers keep going
+            let how = match rng.below(16) {
+                0 => How::Thread,
+                1 | 2 => How::Unwind,
+                _ => How::Normal,
+            };
+            let dropped = drop_send(guard, how);
+            record(&mut script, &mut results, &mut failure, Item { t: 0, r: None, op: Op::DropRT(k, how) }, if dropped.is_ok() { "ok".into() } else { "panic".into() }, i);
+            // now the next destination takes over, deterministically
+            let e2 = e1 + 1;
+            let raw = probe(e2);
+            let res = canon(raw, find(self, e2));
+            record(&mut script, &mut results, &mut failure, Item { t: 0, r: Some(k), op: Op::TryAppend(e2) }, res, i);
+        }
+        stop.store(true, Ordering::Release);
+        let mut hammer_ops = 0;
+        let mut accepted = 0u64;
+        for p in pending {
+            let r = p.recv().expect("crew reply");
+            let v: Vec<u64> = r.split(':').filter_map(|x| x.parse().ok()).collect();
+            hammer_ops += v[0];
+            accepted += v[1];
+            if v[3] > 0 && failure.is_none() {
+                failure = Some(("hammer:panic".into(), format!("{} reader operations panicked", v[3])));
+            }
+        }
+        // exactly-once accounting of the readers' appends
+        {
+            let l = self.log.lock().unwrap();
+            let mut ids: Vec<u64> = l.iter().filter(|r| r.entry >= 5_000_000).map(|r| r.entry).collect();
+            let n = ids.len() as u64;
+            ids.sort_unstable();
+            ids.dedup();
+            if (n != accepted || ids.len() as u64 != n) && failure.is_none() {
+                failure = Some(("hammer:exactly-one".into(), format!("readers had {accepted} appends accepted, the sinks hold {n} records of them ({} distinct)", ids.len())));
+            }
+            if l.iter().any(|r| !r.intact) && failure.is_none() {
+                failure = Some(("hammer:exactly-one".into(), "an entry arrived changed".into()));
+            }
+        }
+        if let Some(h) = handle {
+            script.push(Item { t: 0, r: None, op: Op::DropAttach(How::Normal) });
+            results.push(if catch(|| drop(h)).is_ok() { "ok".into() } else { "panic".into() });
+        }
+        let shared = Arc::new(Mutex::new(Shared::default()));
+        self.finish(g, &shared, None, &mut failure);
+        let request = Case { init: None, ops: script }.encode();
+        Some(HammerOutcome { request, results: results.join(" "), failure, hammer_ops })
+    }
 }
 
 // ------------------------------------------------------------------------------------------------
@@ -2129,6 +2402,7 @@ struct ShardResult {
     dist: std::collections::BTreeMap<String, u64>,
     races: Vec<(String, RaceOutcome, bool)>,
     ads: Vec<(String, AdOutcome)>,
+    hammers: Vec<(String, HammerOutcome)>,
     skipped: u64,
     /// shrunk failures: (key, case, impl, what)
     failures: Vec<(String, String, String, String)>,
@@ -2152,7 +2426,7 @@ fn shrink_failure(shard: &mut Shard, case: &Case, orig: Outcome, class: &str) ->
 
 fn run_shard(index: usize, cases: Vec<Case>, races: Vec<Conc>) -> ShardResult {
     let mut shard = Shard::new(index);
-    let mut res = ShardResult { step: vec![], dist: Default::default(), races: vec![], ads: vec![], skipped: 0, failures: vec![], search_cases: 0 };
+    let mut res = ShardResult { step: vec![], dist: Default::default(), races: vec![], ads: vec![], hammers: vec![], skipped: 0, failures: vec![], search_cases: 0 };
     fn bump(d: &mut std::collections::BTreeMap<String, u64>, k: &str) {
         *d.entry(k.to_string()).or_insert(0) += 1;
     }
@@ -2198,6 +2472,23 @@ fn run_shard(index: usize, cases: Vec<Case>, races: Vec<Conc>) -> ShardResult {
         }
     }
     for rc in races {
+        if let Conc::Hammer(hc) = &rc {
+            match shard.hammer(hc) {
+                Some(o) => {
+                    if let Some((class, what)) = &o.failure {
+                        if !failed_classes.contains(class) {
+                            failed_classes.push(class.clone());
+                            // the statistical witness cannot be shrunk meaningfully: report the iteration that failed
+                            let shown: String = o.results.chars().rev().take(200).collect::<String>().chars().rev().collect();
+                            res.failures.push((format!("global:{class}"), rc.encode(), format!("…{shown}"), what.clone()));
+                        }
+                    }
+                    res.hammers.push((rc.encode(), o));
+                }
+                None => res.skipped += 1,
+            }
+            continue;
+        }
         if let Conc::Ad(ad) = &rc {
             match shard.adrace(ad) {
                 Some(o) => {
@@ -2207,18 +2498,18 @@ fn run_shard(index: usize, cases: Vec<Case>, races: Vec<Conc>) -> ShardResult {
                             failed_classes.push(class.clone());
                             // shrink the ops after the concurrent block (bounded: every failing run may cost a global)
                             let mut budget = 14;
-                            let tail = shrink_list(&ad.case.ops[ad.block..], |cand| {
+                            let tail = shrink_list(&ad.case.ops[ad.pre + ad.block..], |cand| {
                                 if budget == 0 {
                                     return false;
                                 }
                                 budget -= 1;
                                 let mut c = ad.clone();
-                                c.case.ops.truncate(ad.block);
+                                c.case.ops.truncate(ad.pre + ad.block);
                                 c.case.ops.extend_from_slice(cand);
                                 matches!(shard.adrace(&c), Some(AdOutcome { failure: Some(_), .. }))
                             });
                             let mut small = ad.clone();
-                            small.case.ops.truncate(ad.block);
+                            small.case.ops.truncate(ad.pre + ad.block);
                             small.case.ops.extend(tail);
                             match shard.adrace(&small) {
                                 Some(AdOutcome { failure: Some((_, w)), results, .. }) => {
@@ -2237,7 +2528,7 @@ fn run_shard(index: usize, cases: Vec<Case>, races: Vec<Conc>) -> ShardResult {
         let (out, class, is_gate) = match &rc {
             Conc::Race(r) => (shard.race(r), "race-detach", false),
             Conc::Gate(g) => (shard.gated(g.third, g.wait_ms, g.how), "race-detach-gated", true),
-            Conc::Ad(_) => unreachable!(),
+            Conc::Ad(_) | Conc::Hammer(_) => unreachable!(),
         };
         match out {
             Some(o) => {
@@ -2294,7 +2585,8 @@ fn main() {
                 rep.notes.push(format!("corpus line not understood: {l}"));
             }
         }
-        for (i, c) in gen_exhaustive(if thorough { 3 } else { 2 }).into_iter().enumerate() {
+        // `--conc-only 1` (diagnostics): only the concurrent stages
+        for (i, c) in gen_exhaustive(if args.extra.contains_key("conc-only") { 0 } else if thorough { 3 } else { 2 }).into_iter().enumerate() {
             step_cases[i % shards].push(c);
         }
         let n_random = if thorough { 80_000 } else { 3_000 };
@@ -2320,7 +2612,9 @@ fn main() {
             for _ in 0..n_panics {
                 v.push(gen_panics(&mut r));
             }
-            step_cases[s].extend(v);
+            if !args.extra.contains_key("conc-only") {
+                step_cases[s].extend(v);
+            }
             for i in 0..n_races {
                 race_cases[s].push(Conc::Race(RaceCase {
                     per_thread: *r.pick(&[0, 1, 5, 40, 120, 300]),
@@ -2337,9 +2631,18 @@ fn main() {
                     _ => r.below(total + 1),
                 };
             }
+            let n_hammer = if thorough { 8 } else { 2 };
+            for i in 0..n_hammer {
+                race_cases[s].push(Conc::Hammer(HammerCase {
+                    threads: [4, 2, 3, 4][i % 4],
+                    iters: if thorough { 3_000 } else { 600 },
+                    attached: i % 2 == 1,
+                    seed: r.next_u64() % 1_000_000,
+                }));
+            }
             let n_ad = if thorough { 45 } else { 9 };
             for i in 0..n_ad {
-                let kind = ['a', 'a', 'r', 'a', 'r', 't', 'a', 'r', 'a'][i % 9];
+                let kind = ['a', 'd', 'r', 'a', 'd', 't', 'a', 'r', 'd'][i % 9];
                 race_cases[s].push(Conc::Ad(gen_adrace(&mut r, kind, if thorough { 25 } else { 30 })));
             }
             let n_gates = if thorough { 30 } else { 6 };
@@ -2384,6 +2687,18 @@ fn main() {
             }
             requests.push(enc);
             answers.push((results, None, "global/step"));
+        }
+        for (ci, (enc, o)) in sr.hammers.iter().enumerate() {
+            rep.case(&format!("{enc} #{ci}"), o.hammer_ops > 0);
+            rep.bump("hammer:cases");
+            rep.bump_by("hammer:reader operations concurrent with guard installs/drops", o.hammer_ops);
+            rep.bump_by("hammer:guard drops judged", enc.split_whitespace().nth(2).and_then(|x| x.parse().ok()).unwrap_or(0));
+            if ci == 0 {
+                rep.sample(json!({"case": enc, "reader_ops": o.hammer_ops, "impl_head": o.results.chars().take(60).collect::<String>()}));
+            }
+            rep.traces_validated += 1;
+            requests.push(o.request.clone());
+            answers.push((o.results.clone(), Some(enc.clone()), "global/hammer"));
         }
         for (ci, (enc, o)) in sr.ads.iter().enumerate() {
             rep.case(&format!("{enc} #{ci}"), true);
